@@ -38,10 +38,12 @@ POLYGONS = [
     [[10, 30], [100, 30], [55, 60]],
     [[10, 30], [55, 25.49], [100, 30], [100, 60.51], [10, 60]],
     [[-10, -30.5], [100, -30], [100, 60], [-10.5, 60]],
+    [[10, 30], [100, 30], [100, 60], [10, 60], [10, 30]],                 # an explicitly closed ring (as shapely hands them out)
+    [[20.2, 40.4], [100, 30], [100, 60], [10, 60], [19.8, 39.6]],         # first and last point coincide only after rounding
 ]
 HEIGHTS = [[10, 3], [7.26, 2.04], [7.25, 2.05], 'f32', None]
 TEXTS = [None, '', 'abc', '<&>"\'', ' lead', 'trail ', 'a  b', 'a\tb', 'a\nb', 'a\rb', 'a b', 'é', 'שלום', 'مرحبا',
-         '\U0001F600\U00020000', ']]>', '�\x85 ']
+         '\U0001F600\U00020000', ']]>', '�\x85 ', ' ', '\u00a0\u3000', ' \t ']      # ... and transcriptions made of white space only
 CONFS = [None, 0, 1, 0.12345, 0.9995, 1e-9]
 INDEXES = [None, 7, 0]
 RTYPES = [None, 'paragraph']
